@@ -191,11 +191,86 @@ Section Rt.
   (* [sw'] is the writer's final state, [extra] what it appended (in stream order) *)
   Definition wrote (sw sw' : state) (extra : list N) : Prop := out sw' = rev extra ++ out sw.
 
-  Definition rt_ok (s : stmt) (A A' : list akey) : Prop :=
+  Definition rt_ok0 (s : stmt) (A A' : list akey) : Prop :=
     forall sw sw', exec Wr v hs s sw = Ok sw' ->
     exists extra, wrote sw sw' extra /\
       forall sr rest, agree A sw sr -> wfio sr -> inp sr = extra ++ rest ->
       exists sr', exec Rd v hs s sr = Ok sr' /\ inp sr' = rest /\ wfio sr' /\ agree A' sw' sr'.
+
+  (* the same, for writers that finish without the long-inline-string flag *)
+  Definition rt_ok (s : stmt) (A A' : list akey) : Prop :=
+    forall sw sw', exec Wr v hs s sw = Ok sw' -> warn sw' = false ->
+    exists extra, wrote sw sw' extra /\
+      forall sr rest, agree A sw sr -> wfio sr -> inp sr = extra ++ rest ->
+      exists sr', exec Rd v hs s sr = Ok sr' /\ inp sr' = rest /\ wfio sr' /\ agree A' sw' sr'.
+
+  Lemma rt_ok0_ok s A A' : rt_ok0 s A A' -> rt_ok s A A'.
+  Proof. intros H sw sw' Hx _. exact (H sw sw' Hx). Qed.
+
+  (* ---- the flag is never reset by a writer ---- *)
+  Lemma warn_sync_int_w st k p n : warn (sync_int Wr st k p n) = warn st.
+  Proof. unfold sync_int. destruct (n =? prim_width p); reflexivity. Qed.
+
+  Lemma warn_compact fidx i : forall fuel st src dst n, warn (compact_refs fuel st fidx i src dst n) = warn st.
+  Proof.
+    induction fuel as [|fuel IH]; intros st src dst n; cbn [compact_refs]; [reflexivity|].
+    destruct (src <? n); [|reflexivity].
+    destruct (Z.eqb _ NPOSZ); rewrite IH; reflexivity.
+  Qed.
+
+  Lemma warn_clean st a b c d i : warn (clean_refs st a b c d i) = warn st.
+  Proof.
+    unfold clean_refs. destruct (Z.eqb _ 0); [|reflexivity]. cbv zeta. cbn [warn set_int set_size].
+    apply warn_compact.
+  Qed.
+
+  Lemma warn_set_int st k z : warn (set_int st k z) = warn st. Proof. reflexivity. Qed.
+  Lemma warn_set_size st k z : warn (set_size st k z) = warn st. Proof. reflexivity. Qed.
+  Lemma warn_set_blob st k z : warn (set_blob st k z) = warn st. Proof. reflexivity. Qed.
+  Lemma warn_set_local st k z : warn (set_local st k z) = warn st. Proof. reflexivity. Qed.
+  Lemma warn_emit st b : warn (emit st b) = warn st. Proof. reflexivity. Qed.
+  Lemma warn_log_ref st k : warn (log_ref st k) = warn st. Proof. reflexivity. Qed.
+  Lemma warn_sync_blob_w st k n : warn (sync_blob Wr st k n) = warn st. Proof. reflexivity. Qed.
+  Lemma warn_set_warn st b : warn (set_warn st b) = (warn st || b)%bool. Proof. reflexivity. Qed.
+
+  Lemma warn_iter body x
+        (IH : forall st st', exec Wr v hs body st = Ok st' -> warn st = true -> warn st' = true) :
+    forall n st p, N.iter n (fun acc => bind acc (fun p => let '(i, s) := p in
+                  bind (exec Wr v hs body (set_local s x (Z.of_N i))) (fun s' => Ok (i + 1, s')))) (Ok (0, st)) = Ok p ->
+              warn st = true -> warn (snd p) = true.
+  Proof.
+    induction n as [|n IHn] using N.peano_ind; intros st p H Hw.
+    - cbn in H. inversion H; subst. exact Hw.
+    - rewrite N.iter_succ in H.
+      destruct (N.iter n _ (Ok (0, st))) as [[j t]| |] eqn:E; cbn [bind] in H; try discriminate.
+      destruct (exec Wr v hs body (set_local t x (Z.of_N j))) as [t'| |] eqn:Eb; cbn [bind] in H; try discriminate.
+      inversion H; subst p. cbn [snd]. eapply IH; [exact Eb|]. exact (IHn st (j, t) E Hw).
+  Qed.
+
+  Lemma warn_mono : forall s st st', exec Wr v hs s st = Ok st' -> warn st = true -> warn st' = true.
+  Proof.
+    Local Ltac wrw := repeat first [rewrite warn_sync_int_w | rewrite warn_clean | rewrite warn_sync_blob_w | rewrite warn_set_warn
+                              | rewrite warn_emit | rewrite warn_log_ref | rewrite warn_set_local | rewrite warn_set_size
+                              | rewrite warn_set_blob | rewrite warn_set_int].
+    Local Ltac okinj H := match type of H with Ok ?X = Ok ?y => let E := fresh in assert (E : y = X) by congruence; subst y; clear H end.
+    induction s; intros st st' H Hw; cbn [exec] in H; cbv zeta in H;
+      try (okinj H; wrw; exact Hw).
+    - destruct (exec Wr v hs s1 st) as [st1| |] eqn:E1; cbn [bind] in H; try discriminate. eauto.
+    - destruct (eval Wr v hs st c) as [z| |]; cbn [bind] in H; try discriminate.
+      destruct (Z.eqb z 0); eauto.
+    - destruct (eval Wr v hs st n) as [z| |]; cbn [bind] in H; try discriminate.
+      okinj H. wrw. exact Hw.
+    - destruct (get_size st _ =? 0); okinj H; [exact Hw|]. wrw. exact Hw.
+    - destruct (Z.ltb (vfile v) V20_1_0_3); okinj H; wrw; [rewrite Hw; reflexivity|exact Hw].
+    - destruct (eval Wr v hs st n) as [z| |]; cbn [bind] in H; try discriminate. okinj H. exact Hw.
+    - destruct (eval Wr v hs st n) as [z| |]; cbn [bind] in H; try discriminate.
+      unfold iter_loop in H.
+      destruct (N.iter (Z.to_N z) _ (Ok (0, st))) as [p| |] eqn:E; cbn [bind] in H; try discriminate.
+      okinj H. eapply warn_iter; [exact IHs|exact E|exact Hw].
+    - destruct (eval Wr v hs st e) as [z| |]; cbn [bind] in H; try discriminate. okinj H. exact Hw.
+    - destruct (eval Wr v hs st e) as [z| |]; cbn [bind] in H; try discriminate. okinj H. exact Hw.
+    - discriminate.
+  Qed.
 
   Lemma wrote_refl sw : wrote sw sw [].
   Proof. reflexivity. Qed.
@@ -252,8 +327,13 @@ Section Rt.
     - intros f idx Hf Hidx. rewrite Hk1, Hk2. unfold get_size. rewrite <- Hs1, <- Hs2. apply Hz; auto.
   Qed.
 
+  Lemma warn_back s st st' : exec Wr v hs s st = Ok st' -> warn st' = false -> warn st = false.
+  Proof.
+    intros H Hf. destruct (warn st) eqn:E; [|reflexivity]. rewrite (warn_mono s st st' H E) in Hf. discriminate.
+  Qed.
+
   (* ---- structural lemmas ---- *)
-  Lemma rt_skip A : rt_ok SSkip A A.
+  Lemma rt_skip A : rt_ok0 SSkip A A.
   Proof.
     intros sw sw' H. cbn in H. inversion H; subst. exists []. split; [apply wrote_refl|].
     intros sr rest Hag Hw Hi. exists sr. split; [reflexivity|]. split; [exact Hi|]. split; [exact Hw|exact Hag].
@@ -261,9 +341,9 @@ Section Rt.
 
   Lemma rt_seq a b A A1 A2 : rt_ok a A A1 -> rt_ok b A1 A2 -> rt_ok (SSeq a b) A A2.
   Proof.
-    intros Ha Hb sw sw' H. cbn [exec] in H.
+    intros Ha Hb sw sw' H Hnw. cbn [exec] in H.
     destruct (exec Wr v hs a sw) as [sw1| |] eqn:E1; cbn [bind] in H; try discriminate.
-    destruct (Ha sw sw1 E1) as (e1 & W1 & R1). destruct (Hb sw1 sw' H) as (e2 & W2 & R2).
+    destruct (Ha sw sw1 E1 (warn_back b sw1 sw' H Hnw)) as (e1 & W1 & R1). destruct (Hb sw1 sw' H Hnw) as (e2 & W2 & R2).
     exists (e1 ++ e2). split; [eapply wrote_trans; eauto|].
     intros sr rest Hag Hw Hi. rewrite <- app_assoc in Hi.
     destruct (R1 sr (e2 ++ rest) Hag Hw Hi) as (sr1 & X1 & I1 & Wf1 & Ag1).
@@ -273,7 +353,7 @@ Section Rt.
 
   Lemma rt_weaken s A A1 A2 : (forall a, In a A2 -> In a A1) -> rt_ok s A A1 -> rt_ok s A A2.
   Proof.
-    intros Hs H sw sw' Hx. destruct (H sw sw' Hx) as (e & W & R). exists e. split; [exact W|].
+    intros Hs H sw sw' Hx Hnw. destruct (H sw sw' Hx Hnw) as (e & W & R). exists e. split; [exact W|].
     intros sr rest Hag Hw Hi. destruct (R sr rest Hag Hw Hi) as (sr' & X & I & Wf & Ag).
     exists sr'. split; [exact X|]. split; [exact I|]. split; [exact Wf|]. eapply agree_subset; eauto.
   Qed.
@@ -281,14 +361,14 @@ Section Rt.
   Lemma rt_if_dyn c t e A A1 A2 :
     reads_ok A c = true -> rt_ok t A A1 -> rt_ok e A A2 -> rt_ok (SIf c t e) A (ainter A1 A2).
   Proof.
-    intros Hc Ht He sw sw' H. cbn [exec] in H.
+    intros Hc Ht He sw sw' H Hnw. cbn [exec] in H.
     destruct (eval Wr v hs sw c) as [z| |] eqn:Ec; cbn [bind] in H; try discriminate.
     destruct (Z.eqb z 0) eqn:Ez.
-    - destruct (He sw sw' H) as (ex & W & R). exists ex. split; [exact W|].
+    - destruct (He sw sw' H Hnw) as (ex & W & R). exists ex. split; [exact W|].
       intros sr rest Hag Hw Hi. destruct (R sr rest Hag Hw Hi) as (sr' & X & I & Wf & Ag).
       exists sr'. cbn [exec]. rewrite <- (reads_ok_eval A sw sr Hag c Hc), Ec. cbn [bind]. rewrite Ez.
       split; [exact X|]. split; [exact I|]. split; [exact Wf|]. eapply agree_subset; [|exact Ag]. apply ainter_in_r.
-    - destruct (Ht sw sw' H) as (ex & W & R). exists ex. split; [exact W|].
+    - destruct (Ht sw sw' H Hnw) as (ex & W & R). exists ex. split; [exact W|].
       intros sr rest Hag Hw Hi. destruct (R sr rest Hag Hw Hi) as (sr' & X & I & Wf & Ag).
       exists sr'. cbn [exec]. rewrite <- (reads_ok_eval A sw sr Hag c Hc), Ec. cbn [bind]. rewrite Ez.
       split; [exact X|]. split; [exact I|]. split; [exact Wf|]. eapply agree_subset; [|exact Ag]. apply ainter_in_l.
@@ -297,10 +377,10 @@ Section Rt.
   Lemma rt_if_ver c t e A A' z :
     ver_only v c = Some z -> rt_ok (if Z.eqb z 0 then e else t) A A' -> rt_ok (SIf c t e) A A'.
   Proof.
-    intros Hv Hb sw sw' H. cbn [exec] in H.
+    intros Hv Hb sw sw' H Hnw. cbn [exec] in H.
     rewrite (ver_only_sound Wr v hs c sw z Hv) in H. cbn [bind] in H.
     assert (Hx : exec Wr v hs (if Z.eqb z 0 then e else t) sw = Ok sw') by (destruct (Z.eqb z 0); exact H).
-    destruct (Hb sw sw' Hx) as (ex & W & R). exists ex. split; [exact W|].
+    destruct (Hb sw sw' Hx Hnw) as (ex & W & R). exists ex. split; [exact W|].
     intros sr rest Hag Hw Hi. destruct (R sr rest Hag Hw Hi) as (sr' & X & I & Wf & Ag).
     exists sr'. cbn [exec]. rewrite (ver_only_sound Rd v hs c sr z Hv). cbn [bind].
     split; [destruct (Z.eqb z 0); exact X|]. auto.
@@ -374,7 +454,7 @@ Section Rt.
   Lemma rt_scalar A s f idx p (lg : bool) :
     idx_agreed A idx = true -> 0 < prim_width p ->
     (forall m st, exec m v hs s st = Ok (maybe_log lg (sync_int m st (key st f idx) p (prim_width p)) (key st f idx))) ->
-    rt_ok s A (aadd (AInt f idx) A).
+    rt_ok0 s A (aadd (AInt f idx) A).
   Proof.
     intros Hidx Hp Hex sw sw' H. rewrite Hex in H.
     assert (Hsw : sw' = maybe_log lg (sync_int Wr sw (key sw f idx) p (prim_width p)) (key sw f idx)) by congruence.
@@ -484,7 +564,7 @@ Section Rt.
       exact (ag_size B sw sr Hag g i Hg (idx_agreed_drop_local x B i Hm Hi)).
   Qed.
 
-  Lemma rt_local A x p e : reads_ok A e = true -> rt_ok (SLocal x p e) A (aadd (ALocal x) (akill x A)).
+  Lemma rt_local A x p e : reads_ok A e = true -> rt_ok0 (SLocal x p e) A (aadd (ALocal x) (akill x A)).
   Proof.
     intros He sw sw' H. cbn [exec] in H.
     destruct (eval Wr v hs sw e) as [z| |] eqn:Ez; cbn [bind] in H; try discriminate.
@@ -499,7 +579,7 @@ Section Rt.
   Lemma key_of_key st f idx : key_of st f idx = key st f idx.
   Proof. reflexivity. Qed.
 
-  Lemma rt_assign A f idx p e : idx_agreed A idx = true -> reads_ok A e = true -> rt_ok (SAssign f idx p e) A (aadd (AInt f idx) A).
+  Lemma rt_assign A f idx p e : idx_agreed A idx = true -> reads_ok A e = true -> rt_ok0 (SAssign f idx p e) A (aadd (AInt f idx) A).
   Proof.
     intros Hidx He sw sw' H. cbn [exec] in H. cbv zeta in H. rewrite key_of_key in H.
     destruct (eval Wr v hs sw e) as [z| |] eqn:Ez; cbn [bind] in H; try discriminate.
@@ -510,7 +590,7 @@ Section Rt.
     apply agree_set_int_both; assumption.
   Qed.
 
-  Lemma rt_resize A f idx n : idx_agreed A idx = true -> reads_ok A n = true -> rt_ok (SResize f idx n) A (aadd (ASize f idx) A).
+  Lemma rt_resize A f idx n : idx_agreed A idx = true -> reads_ok A n = true -> rt_ok0 (SResize f idx n) A (aadd (ASize f idx) A).
   Proof.
     intros Hidx He sw sw' H. cbn [exec] in H. cbv zeta in H. rewrite key_of_key in H.
     destruct (eval Wr v hs sw n) as [z| |] eqn:Ez; cbn [bind] in H; try discriminate.
@@ -522,7 +602,7 @@ Section Rt.
   Qed.
 
   (* ---- raw memory of an agreed size ---- *)
-  Lemma rt_bytes A f idx n : idx_agreed A idx = true -> reads_ok A n = true -> rt_ok (SBytes f idx n) A A.
+  Lemma rt_bytes A f idx n : idx_agreed A idx = true -> reads_ok A n = true -> rt_ok0 (SBytes f idx n) A A.
   Proof.
     intros Hidx He sw sw' H. cbn [exec] in H. cbv zeta in H.
     destruct (eval Wr v hs sw n) as [z| |] eqn:Ez; cbn [bind] in H; try discriminate.
@@ -543,6 +623,58 @@ Section Rt.
       eapply agree_store_eq; [| |exact Hag].
       + repeat split.
       + unfold store_eq, set_blob. cbn [ints sizes locals]. rewrite E1, E3, E4. repeat split.
+  Qed.
+
+  (* ---- a raw array whose length is the (agreed) element count of its container ---- *)
+  Lemma rt_bytesvec A f idx : idx_agreed A idx = true -> amem (ASize f idx) A = true -> rt_ok0 (SBytesVec f idx) A A.
+  Proof.
+    intros Hidx Hsz sw sw' H. cbn [exec] in H. cbv zeta in H. rewrite key_of_key in H.
+    assert (Hn : forall sr, agree A sw sr -> get_size sr (key sr f idx) = get_size sw (key sw f idx)).
+    { intros sr Hag. symmetry. apply (ag_size A sw sr Hag f idx (amem_in _ _ Hsz) Hidx). }
+    destruct (get_size sw (key sw f idx) =? 0) eqn:E0.
+    - assert (sw' = sw) by congruence. subst sw'. exists []. split; [apply wrote_refl|].
+      intros sr rest Hag Hw Hi. cbn [exec]. cbv zeta. rewrite key_of_key, (Hn sr Hag), E0.
+      exists sr. split; [reflexivity|]. split; [exact Hi|]. split; [exact Hw|exact Hag].
+    - unfold sync_blob in H.
+      set (nn := N.to_nat (get_size sw (key sw f idx))) in *.
+      set (b := firstn nn (get_blob sw (key sw f idx) ++ repeat 0 nn)) in *.
+      assert (sw' = emit (set_blob sw (key sw f idx) b) b) by congruence. subst sw'. clear H.
+      assert (Hb : length b = nn).
+      { unfold b. rewrite firstn_length, app_length, repeat_length. lia. }
+      exists b. split.
+      + unfold wrote, emit. cbn [out set_blob]. rewrite rev_append_rev. reflexivity.
+      + intros sr rest Hag Hw Hi. cbn [exec]. cbv zeta. rewrite key_of_key, (Hn sr Hag), E0.
+        unfold sync_blob.
+        destruct (read_exact sr b rest Hw Hi) as (s1 & Hr & I1 & W1 & E1 & E2 & E3 & E4 & E5).
+        replace (read sr (get_size sw (key sw f idx))) with (read sr (N.of_nat (length b))) by (f_equal; lia).
+        rewrite Hr.
+        eexists. split; [reflexivity|]. split; [exact I1|]. split; [exact W1|].
+        eapply agree_store_eq; [| |exact Hag].
+        * repeat split.
+        * unfold store_eq, set_blob. cbn [ints sizes locals]. rewrite E1, E3, E4. repeat split.
+  Qed.
+
+  (* ---- a local variable passed through the stream ---- *)
+  Lemma rt_synclocal A x p : full_width p = true -> rt_ok0 (SSyncLocal x p) A (aadd (ALocal x) (akill x A)).
+  Proof.
+    intros Hp sw sw' H. cbn [exec] in H. cbv zeta in H.
+    set (e := encode p (get_local sw x)) in *.
+    assert (sw' = set_local (emit sw e) x (decode p e)) by congruence. subst sw'. clear H.
+    assert (Hel : length e = N.to_nat (prim_width p)) by apply encode_length.
+    pose proof (full_width_pos p Hp) as Hpos.
+    exists e. split.
+    - unfold wrote, emit. cbn [out set_local]. rewrite rev_append_rev. reflexivity.
+    - intros sr rest Hag Hw Hi. cbn [exec].
+      destruct (read_exact sr e rest Hw Hi) as (u & Hr & I1 & W1 & E1 & E2 & E3 & E4 & E5).
+      replace (read sr (prim_width p)) with (read sr (N.of_nat (length e))) by (f_equal; lia).
+      rewrite Hr.
+      destruct (Nat.eqb_spec (length e) 0) as [Hz|_]; [lia|].
+      rewrite overlay_full by exact Hel.
+      eexists. split; [reflexivity|]. split; [exact I1|]. split; [exact W1|].
+      apply agree_set_local_both; [|apply akill_xfree].
+      eapply agree_store_eq; [| |eapply agree_subset; [apply akill_in|exact Hag]].
+      + repeat split.
+      + unfold store_eq. rewrite E1, E3, E4. repeat split.
   Qed.
 
   (* ---- loops ---- *)
@@ -574,21 +706,22 @@ Section Rt.
     let B := akill x A in
     let A0 := aadd (ALocal x) B in
     rt_ok body A0 A1 -> asubset A0 A1 = true ->
-    forall n sw i sw', iter_state Wr body x n sw = Ok (i, sw') ->
+    forall n sw i sw', iter_state Wr body x n sw = Ok (i, sw') -> warn sw' = false ->
     exists extra, wrote sw sw' extra /\
       forall sr rest, agree B sw sr -> wfio sr -> inp sr = extra ++ rest ->
       exists sr', iter_state Rd body x n sr = Ok (i, sr') /\ inp sr' = rest /\ wfio sr' /\ agree B sw' sr'.
   Proof.
     intros B A0 Hbody Hsub.
-    induction n as [|n IH] using N.peano_ind; intros sw i sw' H.
+    induction n as [|n IH] using N.peano_ind; intros sw i sw' H Hnw.
     - cbn in H. inversion H; subst. exists []. split; [reflexivity|].
       intros sr rest Hag Hw Hi. exists sr. split; [reflexivity|]. split; [exact Hi|]. split; [exact Hw|exact Hag].
     - rewrite iter_state_succ in H.
       destruct (iter_state Wr body x n sw) as [[j t]| |] eqn:E; cbn [bind] in H; try discriminate.
       destruct (exec Wr v hs body (set_local t x (Z.of_N j))) as [t'| |] eqn:Eb; cbn [bind] in H; try discriminate.
       inversion H; subst i sw'. clear H.
-      destruct (IH sw j t E) as (e1 & W1 & R1).
-      destruct (Hbody _ _ Eb) as (e2 & W2 & R2).
+      assert (Hnt : warn t = false) by exact (warn_back body _ _ Eb Hnw).
+      destruct (IH sw j t E Hnt) as (e1 & W1 & R1).
+      destruct (Hbody _ _ Eb Hnw) as (e2 & W2 & R2).
       exists (e1 ++ e2). split.
       + eapply wrote_trans; [exact W1|]. unfold wrote in *. cbn [out set_local] in W2. exact W2.
       + intros sr rest Hag Hw Hi. rewrite <- app_assoc in Hi.
@@ -609,12 +742,12 @@ Section Rt.
     rt_ok body (aadd (ALocal x) (akill x A)) A1 -> asubset (aadd (ALocal x) (akill x A)) A1 = true ->
     rt_ok (SFor x n body) A (akill x A).
   Proof.
-    intros Hn Hbody Hsub sw sw' H. cbn [exec] in H.
+    intros Hn Hbody Hsub sw sw' H Hnw. cbn [exec] in H.
     destruct (eval Wr v hs sw n) as [z| |] eqn:Ez; cbn [bind] in H; try discriminate.
     rewrite iter_loop_state in H.
     destruct (iter_state Wr body x (Z.to_N z) sw) as [[i t]| |] eqn:E; cbn [bind snd] in H; try discriminate.
     assert (t = sw') by congruence. subst t. clear H.
-    destruct (rt_for_states A x body A1 Hbody Hsub (Z.to_N z) sw i sw' E) as (extra & W & R).
+    destruct (rt_for_states A x body A1 Hbody Hsub (Z.to_N z) sw i sw' E Hnw) as (extra & W & R).
     exists extra. split; [exact W|].
     intros sr rest Hag Hw Hi.
     assert (HagB : agree (akill x A) sw sr) by (eapply agree_subset; [apply akill_in|exact Hag]).
@@ -654,7 +787,7 @@ Section Rt.
   Proof. intros H. rewrite wrapZ_unsigned. apply Z.mod_le; [exact H|]. apply Z.pow_pos_nonneg; lia. Qed.
 
   (* ---- NiString: length prefix, then the bytes ---- *)
-  Lemma rt_nistring A f idx w : 0 < w -> rt_ok (SNiString f idx w) A A.
+  Lemma rt_nistring A f idx w : 0 < w -> rt_ok0 (SNiString f idx w) A A.
   Proof.
     intros Hw sw sw' H. cbn [exec] in H. cbv zeta in H.
     set (k := key_of sw f idx) in *.
@@ -678,6 +811,44 @@ Section Rt.
       assert (Hdec : Z.to_N (of_le_bytes lb) = sz).
       { unfold lb. rewrite Hzz, of_le_wrap, <- Hzz. apply N2Z.id. }
       rewrite Hdec.
+      destruct (read_exact u s1 rest W1 I1) as (u2 & Hr2 & I2 & W2 & F1 & F2 & F3 & F4 & F5).
+      replace (read u sz) with (read u (N.of_nat (length s1))) by (f_equal; lia).
+      rewrite Hr2.
+      eexists. split; [reflexivity|]. split; [exact I2|]. split; [exact W2|].
+      eapply agree_store_eq; [| |exact Hag].
+      + repeat split.
+      + unfold store_eq, set_blob. cbn [ints sizes locals]. rewrite F1, F3, F4, E1, E3, E4. repeat split.
+  Qed.
+
+  (* ---- NiStringRef before 20.1.0.3: an inline string (u32 length, bytes); the reader takes at most 2048 bytes ---- *)
+  Lemma rt_strref_old A fstr findex idx :
+    Z.ltb (vfile v) V20_1_0_3 = true -> rt_ok (SStrRef fstr findex idx) A A.
+  Proof.
+    intros Hv sw sw' H Hnw. cbn [exec] in H. rewrite Hv in H. cbv zeta in H.
+    set (k := key_of sw fstr idx) in *.
+    set (s0 := get_blob sw k) in *.
+    set (sz := Z.to_N (wrapZ 4 false (Z.of_nat (length s0)))) in *.
+    set (s1 := firstn (N.to_nat sz) s0) in *.
+    assert (sw' = emit (emit (set_warn (set_blob sw k s1) (2049 <=? sz)) (le_bytes 4 (Z.of_N sz))) s1) by congruence. subst sw'. clear H.
+    assert (Hshort : (sz <? 2049) = true).
+    { rewrite !warn_emit, warn_set_warn in Hnw. apply orb_false_iff in Hnw. destruct Hnw as [_ Hl].
+      apply N.leb_gt in Hl. apply N.ltb_lt. exact Hl. }
+    assert (Hszle : (N.to_nat sz <= length s0)%nat).
+    { unfold sz. pose proof (wrapZ_unsigned_le 4 (Z.of_nat (length s0)) ltac:(lia)). pose proof (wrapZ_unsigned_range 4 (Z.of_nat (length s0))). lia. }
+    assert (Hs1 : length s1 = N.to_nat sz) by (unfold s1; rewrite firstn_length; lia).
+    assert (Hzz : Z.of_N sz = wrapZ 4 false (Z.of_nat (length s0))).
+    { unfold sz. rewrite Z2N.id; [reflexivity|apply wrapZ_unsigned_range]. }
+    exists (le_bytes 4 (Z.of_N sz) ++ s1). split.
+    - unfold wrote, emit. cbn [out set_blob set_warn]. rewrite !rev_append_rev, rev_app_distr, app_assoc. reflexivity.
+    - intros sr rest Hag Hwf Hi. cbn [exec]. rewrite Hv. cbv zeta. rewrite <- app_assoc in Hi.
+      set (lb := le_bytes 4 (Z.of_N sz)) in *.
+      assert (Hlb : length lb = 4%nat) by apply le_bytes_length.
+      destruct (read_exact sr lb (s1 ++ rest) Hwf Hi) as (u & Hr & I1 & W1 & E1 & E2 & E3 & E4 & E5).
+      replace (read sr 4) with (read sr (N.of_nat (length lb))) by (f_equal; lia).
+      rewrite Hr. rewrite overlay_full by exact Hlb.
+      assert (Hdec : Z.to_N (of_le_bytes lb) = sz).
+      { unfold lb. rewrite Hzz. change 4%nat with (N.to_nat 4). rewrite of_le_wrap, <- Hzz. apply N2Z.id. }
+      rewrite Hdec, Hshort.
       destruct (read_exact u s1 rest W1 I1) as (u2 & Hr2 & I2 & W2 & F1 & F2 & F3 & F4 & F5).
       replace (read u sz) with (read u (N.of_nat (length s1))) by (f_equal; lia).
       rewrite Hr2.
@@ -784,7 +955,7 @@ Section Rt.
   (* ---- NiVector::SyncSize ---- *)
   Lemma rt_vecsize A f idx w x :
     idx_agreed A idx = true -> 0 < w ->
-    rt_ok (SVecSize f idx w x) A (aadd (ALocal x) (akill x (akill_size f A))).
+    rt_ok0 (SVecSize f idx w x) A (aadd (ALocal x) (akill x (akill_size f A))).
   Proof.
     intros Hidx Hw sw sw' H. cbn [exec] in H. cbv zeta in H.
     set (k := key_of sw f idx) in *.
@@ -870,7 +1041,7 @@ Section Rt.
 
   Lemma rt_refarr_head A fsize fkeep frefs fidx idx :
     idx_agreed A idx = true -> idx_mentions 0 idx = false ->
-    rt_ok (SRefArrHead fsize fkeep frefs fidx idx 4) A
+    rt_ok0 (SRefArrHead fsize fkeep frefs fidx idx 4) A
           (aadd (ASize frefs idx) (aadd (AInt fsize idx) (akill 0 (akill_int fidx (akill_int fsize (akill_size frefs A)))))).
   Proof.
     intros Hidx Hm0 sw sw' H. cbn [exec] in H. cbv zeta in H.
@@ -941,7 +1112,7 @@ Section Rt.
   Theorem chk_sound : forall s A A', chk v s A = Some A' -> rt_ok s A A'.
   Proof.
     induction s; intros A A' H; cbn [chk] in H; try discriminate.
-    - inversion H; subst. apply rt_skip.
+    - inversion H; subst. apply rt_ok0_ok. apply rt_skip.
     - destruct (chk v s1 A) as [A1|] eqn:E1; [|discriminate].
       eapply rt_seq; eauto.
     - destruct (ver_only v c) as [z|] eqn:Ev.
@@ -953,49 +1124,56 @@ Section Rt.
     - (* SSync *)
       destruct (idx_agreed A idx && full_width p)%bool eqn:E; [|discriminate]. inversion H; subst.
       apply andb_prop in E. destruct E as [E1 E2].
-      apply (rt_scalar A (SSync f idx p) f idx p false E1 (full_width_pos p E2)).
+      apply rt_ok0_ok. apply (rt_scalar A (SSync f idx p) f idx p false E1 (full_width_pos p E2)).
       intros m st. reflexivity.
+    - (* SSyncLocal *)
+      destruct (full_width p) eqn:E; [|discriminate]. inversion H; subst.
+      apply rt_ok0_ok. apply rt_synclocal. exact E.
     - (* SBytes *)
       destruct (idx_agreed A idx && reads_ok A n)%bool eqn:E; [|discriminate]. inversion H; subst.
-      apply andb_prop in E. destruct E as [E1 E2]. apply rt_bytes; assumption.
+      apply andb_prop in E. destruct E as [E1 E2]. apply rt_ok0_ok. apply rt_bytes; assumption.
+    - (* SBytesVec *)
+      destruct (idx_agreed A idx && amem (ASize f idx) A)%bool eqn:E; [|discriminate]. inversion H; subst.
+      apply andb_prop in E. destruct E as [E1 E2]. apply rt_ok0_ok. apply rt_bytesvec; assumption.
     - (* SHalf *)
       destruct (idx_agreed A idx) eqn:E; [|discriminate]. inversion H; subst.
-      apply (rt_scalar A (SHalf f idx) f idx (PInt false 2) false E); [cbn; lia|].
+      apply rt_ok0_ok. apply (rt_scalar A (SHalf f idx) f idx (PInt false 2) false E); [cbn; lia|].
       intros m st. reflexivity.
     - (* SNiString *)
       destruct ((0 <? w) && (w <=? 8))%bool eqn:E; [|discriminate]. inversion H; subst.
-      apply andb_prop in E. destruct E as [E1 _]. apply rt_nistring. apply N.ltb_lt. exact E1.
+      apply andb_prop in E. destruct E as [E1 _]. apply rt_ok0_ok. apply rt_nistring. apply N.ltb_lt. exact E1.
     - (* SStrRef *)
-      destruct (Z.ltb (vfile v) V20_1_0_3) eqn:Ev; [discriminate|].
+      destruct (Z.ltb (vfile v) V20_1_0_3) eqn:Ev.
+      { inversion H; subst. apply rt_strref_old. exact Ev. }
       destruct (idx_agreed A idx) eqn:E; [|discriminate]. inversion H; subst.
-      apply (rt_scalar A (SStrRef fstr findex idx) findex idx u32 true E); [cbn; lia|].
+      apply rt_ok0_ok. apply (rt_scalar A (SStrRef fstr findex idx) findex idx u32 true E); [cbn; lia|].
       intros m st. cbn [exec]. rewrite Ev. cbv zeta. unfold maybe_log.
       rewrite sync_int_log_ref. reflexivity.
     - (* SRef *)
       destruct (idx_agreed A idx) eqn:E; [|discriminate]. inversion H; subst.
-      apply (rt_scalar A (SRef f idx) f idx u32 true E); [cbn; lia|].
+      apply rt_ok0_ok. apply (rt_scalar A (SRef f idx) f idx u32 true E); [cbn; lia|].
       intros m st. cbn [exec]. cbv zeta. unfold maybe_log. rewrite sync_int_log_ref. reflexivity.
     - (* SRefArrHead *)
       destruct (idx_agreed A idx && (w =? 4) && negb (idx_mentions 0 idx))%bool eqn:E; [|discriminate]. inversion H; subst.
       apply andb_prop in E. destruct E as [E E3]. apply andb_prop in E. destruct E as [E1 E2].
-      apply N.eqb_eq in E2. subst w. apply negb_true_iff in E3. apply rt_refarr_head; assumption.
+      apply N.eqb_eq in E2. subst w. apply negb_true_iff in E3. apply rt_ok0_ok. apply rt_refarr_head; assumption.
     - (* SVecSize *)
       destruct (idx_agreed A idx && (0 <? w) && (w <=? 8))%bool eqn:E; [|discriminate]. inversion H; subst.
       apply andb_prop in E. destruct E as [E _]. apply andb_prop in E. destruct E as [E1 E2].
-      apply rt_vecsize; [exact E1|apply N.ltb_lt; exact E2].
+      apply rt_ok0_ok. apply rt_vecsize; [exact E1|apply N.ltb_lt; exact E2].
     - (* SResize *)
       destruct (idx_agreed A idx && reads_ok A n)%bool eqn:E; [|discriminate]. inversion H; subst.
-      apply andb_prop in E. destruct E as [E1 E2]. apply rt_resize; assumption.
+      apply andb_prop in E. destruct E as [E1 E2]. apply rt_ok0_ok. apply rt_resize; assumption.
     - (* SFor *)
       destruct (reads_ok A n) eqn:En; [|discriminate].
       destruct (chk v s (aadd (ALocal x) (akill x A))) as [A1|] eqn:E1; [|discriminate].
       destruct (asubset (aadd (ALocal x) (akill x A)) A1) eqn:Es; [|discriminate].
       inversion H; subst. eapply rt_for; eauto.
     - (* SLocal *)
-      destruct (reads_ok A e) eqn:Ee; [|discriminate]. inversion H; subst. apply rt_local; assumption.
+      destruct (reads_ok A e) eqn:Ee; [|discriminate]. inversion H; subst. apply rt_ok0_ok. apply rt_local; assumption.
     - (* SAssign *)
       destruct (idx_agreed A idx && reads_ok A e)%bool eqn:E; [|discriminate]. inversion H; subst.
-      apply andb_prop in E. destruct E as [E1 E2]. apply rt_assign; assumption.
+      apply andb_prop in E. destruct E as [E1 E2]. apply rt_ok0_ok. apply rt_assign; assumption.
   Qed.
 End Rt.
 
@@ -1021,13 +1199,13 @@ Qed.
    duration of each iteration). *)
 Theorem block_round_trip v hs b :
   chk_block v b = true ->
-  forall obj sw', exec Wr v hs (block_prog b) obj = Ok sw' ->
+  forall obj sw', exec Wr v hs (block_prog b) obj = Ok sw' -> warn sw' = false ->
   exists bytes A', out sw' = rev bytes ++ out obj /\
     forall rest, exists sr', exec Rd v hs (block_prog b) (empty_state (bytes ++ rest)) = Ok sr' /\
                              inp sr' = rest /\ eof sr' = false /\ agree A' sw' sr'.
 Proof.
-  intros Hc obj sw' Hx. destruct (chk_block_prog v b Hc) as (A' & HA).
-  destruct (chk_sound v hs (block_prog b) [] A' HA obj sw' Hx) as (bytes & W & R).
+  intros Hc obj sw' Hx Hnw. destruct (chk_block_prog v b Hc) as (A' & HA).
+  destruct (chk_sound v hs (block_prog b) [] A' HA obj sw' Hx Hnw) as (bytes & W & R).
   exists bytes, A'. split; [exact W|].
   intros rest. destruct (R (empty_state (bytes ++ rest)) rest (agree_nil _ _) (wfio_empty _) eq_refl) as (sr' & X & I & Wf & Ag).
   exists sr'. split; [exact X|]. split; [exact I|]. split; [apply Wf|exact Ag].
